@@ -68,6 +68,68 @@ def _devs():
     return ",".join(k["id"] for k in vlib.known_findings(PROP)) or "none"
 
 
+def _kind(c, verdict):
+    """the kind of a rejected twin case: which dimension of the family it exercises and how it was rejected"""
+    sp = c["spec"]
+    what = {"pos": sp["pos"], "call": sp["cf"], "shadow": sp["shadow"] + "/" + sp["cf"], "feat": sp["feat"],
+            "rebind": sp["key"].split("|")[7]}.get(sp["group"], "")
+    return "%s %s: %s %s %s" % (c["kind"], verdict[1].split(",")[0].strip(' "'), sp["group"], sp["dk"], what)
+
+
+def _validate_twin(out, trace, zv, env, per_kind=1, max_confirm=80):
+    """flow.validate for the twin family, except that the rejections to confirm by re-execution are chosen one per
+    kind of program (the family has hundreds of programs per defect), so that every kind is reported."""
+    cases = vlib.load_cases(trace)
+    if not cases:
+        raise vlib.Inconclusive("harness produced no cases for tailtwin")
+    v, t = vlib.validate_trace("TailTwinTrace.tla", "TailTwinTrace.cfg", trace, env=env, timeout=3000)
+    out.states += t.distinct
+    out.transitions += t.generated
+    missing = [i for i in cases if i not in v]
+    if missing:
+        raise vlib.Inconclusive("%d cases of tailtwin got no verdict from TLC (e.g. %s)\n%s" % (len(missing), missing[:3], t.stdout[-2000:]))
+    out.traces += len(cases)
+    for i in cases:
+        if v[i][0].startswith("known:"):
+            out.known.setdefault(v[i][0][6:], []).append(i)
+    bad = [i for i in cases if v[i][0] == "bad"]
+    vlib.log("tailtwin: %d cases validated by TailTwinTrace.tla in %.1fs: %d rejected, %d explained by known deviations"
+             % (len(cases), t.wall, len(bad), sum(1 for i in cases if v[i][0].startswith("known:"))))
+    if not bad:
+        return cases, v
+    kinds = collections.OrderedDict()
+    for i in bad:
+        kinds.setdefault(_kind(cases[i], v[i]), []).append(i)
+    for k, ids in kinds.items():
+        vlib.log("  tailtwin rejected: %3d x %s" % (len(ids), k))
+    todo = [i for ids in kinds.values() for i in ids[:per_kind]][:max_confirm]
+    rp = os.path.join(vlib.scratch(), "replay-tailtwin.ndjson")
+    paths = {}
+    with open(rp, "w") as f:
+        for i in todo:
+            paths[i] = vlib.save_replay(PROP, cases[i], {"family": "tailtwin", "verdict": list(v[i])})
+            f.write(json.dumps(cases[i]) + "\n")
+    fresh = os.path.join(vlib.scratch(), "fresh-tailtwin.ndjson")
+    vlib.run_zv1(zv, "tailtwin", ["-replay", rp, "-seed", str(vlib.seed()), "-tier", vlib.tier()], out=fresh, timeout=3000)
+    v2, _ = vlib.validate_trace("TailTwinTrace.tla", "TailTwinTrace.cfg", fresh, env=env, timeout=3000)
+    confirmed = []
+    for i in todo:
+        if v2.get(i, ("missing",))[0] == "bad":
+            confirmed.append((i, paths[i], "%s [%s]" % (v[i][1], _kind(cases[i], v[i]))))
+        else:
+            out.notes.append("case %s rejected once but not on re-execution (%s)" % (i, v2.get(i)))
+            try:
+                os.unlink(paths[i])
+            except OSError:
+                pass
+    if not confirmed:
+        raise vlib.Inconclusive("rejections were not reproducible on re-execution: " + ", ".join(todo[:5]))
+    if len(bad) > len(todo):
+        out.notes.append("%d further rejected twin cases of the same kinds not individually confirmed" % (len(bad) - len(todo)))
+    out.violations += confirmed
+    return cases, v
+
+
 def _twin(out, zv):
     """the second oracle: optimised form vs alias / computed-callee form (TailTwin)"""
     thorough = vlib.tier() == "thorough"
@@ -88,7 +150,7 @@ def _twin(out, zv):
     with open(t34, "w") as f:
         f.write(open(t3).read())
         f.write(open(t4).read())
-    call, vall = flow.validate(out, "tailtwin", "TailTwinTrace.tla", "TailTwinTrace.cfg", t34, zv, env=env, max_confirm=40)
+    call, vall = _validate_twin(out, t34, zv, env)
     c3 = {i: c for i, c in call.items() if c["kind"] == "inv"}
     c4 = {i: c for i, c in call.items() if c["kind"] == "space"}
     v3 = v4 = vall
@@ -96,17 +158,6 @@ def _twin(out, zv):
     if len(skipped) > len(c3) // 20:
         raise vlib.Inconclusive("%d of %d twin programs not judged (the reference forms disagree)" % (len(skipped), len(c3)))
     dims = lambda cs, k: len(set(c["spec"][k] for c in cs.values()))
-    # what kinds of programs were rejected (only the first rejections are confirmed and reported one by one)
-    kinds = collections.Counter()
-    for cs, vs in ((c3, v3), (c4, v4)):
-        for i, c in cs.items():
-            if vs[i][0] == "bad":
-                sp = c["spec"]
-                what = {"pos": sp["pos"], "call": sp["cf"], "shadow": sp["shadow"] + "/" + sp["cf"], "feat": sp["feat"],
-                        "rebind": sp["key"].split("|")[7]}.get(sp["group"], "")
-                kinds["%s %s: %s %s %s" % (c["kind"], vs[i][1].split(",")[0].strip(' "'), sp["group"], sp["dk"], what)] += 1
-    for k, n in sorted(kinds.items())[:200]:
-        vlib.log("  tailtwin rejected: %3d x %s" % (n, k))
     some = list(c3.values())[:1]
     return {
         "invisible_programs": len(c3), "invisible_judged": len(c3) - len(skipped), "invisible_not_judged": len(skipped),
